@@ -59,5 +59,4 @@ func vh_C03_framing() {
 	vAssert(ok1 && ok2, "one WRITE and one READ arrive")
 	vAssert(wp.ID == id1 && wp.Handle == "h" && wp.Offset == 3 && len(wp.Data) == 2 && wp.Data[0] == 7 && wp.Data[1] == 8, "WRITE arrives intact")
 	vAssert(rp.ID == id2 && rp.Handle == "hh" && rp.Offset == 1 && rp.Len == 5, "READ arrives intact")
-	vEmit("first", int(f1[4]))
 }
